@@ -339,11 +339,7 @@ func (s *Controller) pushServiceEndpointUpdates(events []krt.Event[InstancesByNa
 				return i.Endpoint
 			})
 			s.XdsUpdater.EDSUpdate(shard, obj.Hostname, obj.Namespace, instances)
-			// DNS clusters carry their endpoints inline, so a change of the instances needs a full push. The flag
-			// is derived from the instances themselves: when the last instance goes away it is only set on the
-			// old object, and the cluster built from that instance has to be withdrawn as well.
-			hadDNSServiceEndpoint := e.Old != nil && e.Old.HasDNSServiceEndpoint
-			if (obj.HasDNSServiceEndpoint || hadDNSServiceEndpoint) && e.Event == controllers.EventUpdate {
+			if obj.HasDNSServiceEndpoint && e.Event == controllers.EventUpdate {
 				s.XdsUpdater.ConfigUpdate(&model.PushRequest{
 					ConfigsUpdated: sets.New(model.ConfigKey{Kind: kind.ServiceEntry, Name: obj.Hostname, Namespace: obj.Namespace}),
 					Reason:         model.NewReasonStats(model.EndpointUpdate),
